@@ -14,7 +14,7 @@ from lightworks import emulator as emu
 from .. import kernel
 from ..circuit_ops import Env, REJECT_TYPES, full_fingerprint
 
-SLOTS = ["P", "A", "B", "Q", "C"]
+SLOTS = ["P", "A", "B", "Q", "C", "L", "W"]
 
 
 def init_pool(env):
@@ -24,7 +24,9 @@ def init_pool(env):
     B = lw.Unitary(env.Usub[1].copy()); B.herald(1, 1)
     Q = lw.Circuit(4); Q.add(B, 1); Q.ps(0, env.PH[1])
     S = lw.State([1, 0, 1, 0])
-    return {"P": P, "A": A, "B": B, "Q": Q, "C": None, "S": S}
+    L = lw.Circuit(4); L.bs(0, reflectivity=env.R[1], loss=env.L2); L.ps(2, env.PH[0], loss=env.L[1])   # lossy
+    W = lw.Circuit(4); W.mode_swaps({0: 2, 2: 1, 1: 0}); W.bs(1, 3, reflectivity=env.R2)                # swaps, lossless
+    return {"P": P, "A": A, "B": B, "Q": Q, "C": None, "S": S, "L": L, "W": W}
 
 
 def alphabet(env):
@@ -38,7 +40,8 @@ def alphabet(env):
         ops.append(("add", "Q", arg, 1, True))
     ops += [("add", "A", "B", 0, False), ("add", "P", "Q", 0, False), ("add", "Q", "Q", 0, False),
             ("add", "P", "P", 0, True)]
-    ops += [("plus", "P", "P"), ("plus", "P", "Q"), ("plus", "Q", "P")]
+    ops += [("plus", "P", "P"), ("plus", "P", "Q"), ("plus", "Q", "P"), ("plus", "L", "W"), ("plus", "W", "L"),
+            ("plus", "P", "W"), ("plus", "L", "P"), ("add", "P", "W", 0, False), ("add", "L", "A", 1, True)]
     ops += [("edit", "A", "bs"), ("edit", "A", "loss"), ("edit", "B", "ps"), ("edit", "B", "herald"),
             ("edit", "P", "herald"), ("edit", "Q", "swap"), ("edit", "P", "bsloss")]
     ops += [("copy", "P"), ("copy", "Q"), ("freeze", "Q"), ("copy", "B")]
@@ -52,7 +55,8 @@ def alphabet(env):
             ("bad", "P", "ps_loss_value"), ("bad", "Q", "swap_incomplete"), ("bad", "P", "herald_range"),
             ("bad", "Q", "herald_dup"), ("bad", "Q", "herald_dup_out"), ("bad", "P", "herald_dup"), ("edit", "Q", "herald"), ("bad", "P", "add_oversize_A"), ("bad", "Q", "add_oversize_B"),
             ("bad", "P", "add_not_circuit"), ("bad", "P", "add_negative"), ("bad", "Q", "bs_conv"),
-            ("bad", "P", "herald_type"), ("bad", "Q", "add_oversize_span"), ("bad", "Q", "add_oversize_heralded_span"),
+            ("bad", "P", "herald_type"), ("bad", "Q", "add_oversize_span"), ("bad", "P", "bs_loss_string"),
+            ("bad", "Q", "ps_loss_string"), ("bad", "P", "loss_string"), ("bad", "P", "bs_refl_string"), ("bad", "Q", "add_oversize_heralded_span"),
             ("bad", "P", "add_oversize_heralded_span")]
     return ops
 
@@ -156,6 +160,10 @@ def apply_op(pool, op, env):
                 # fits by a plain mode count, oversize only because an ancilla lies inside the span
                 hs = lw.Unitary(env.U[5].copy()); hs.herald(1, 2, 2)
                 c.add(hs, 1)
+            elif what == "bs_loss_string": c.bs(0, 1, loss="0.25")
+            elif what == "ps_loss_string": c.ps(0, 0.3, loss="0.25")
+            elif what == "loss_string": c.loss(0, "0.1")
+            elif what == "bs_refl_string": c.bs(0, 1, reflectivity="0.5")
             elif what == "add_not_circuit": c.add("circuit", 0)
             elif what == "add_negative": c.add(pool["A"], -1)
             elif what == "bs_conv": c.bs(0, 1, convention="Q")
